@@ -186,7 +186,7 @@ pub(crate) mod verif_probe {
                 out.put(ready_for_query(false));
                 if sock.write_all(&out).await.is_err() { return; }
                 let mut t = RefTruth { status: b'I', params: param_defaults(), ..RefTruth::default() };
-                let set_rx = regex::Regex::new(r"(?i)^SET\s+(?:SESSION\s+)?([A-Za-z_]+)\s*(?:TO|=)\s*(?:'((?:[^']|'')*)'|([^\s;']+))$").unwrap();
+                let set_rx = regex::Regex::new(r"(?i)^SET\s+(?:SESSION\s+)?([A-Za-z_]+)\s*(?:TO|=)\s*(?:'((?:[^']|'')*)'|([^\s;']+)|E'((?:[^'\\]|''|\\.)*)')$").unwrap();
                 let mut pending: Vec<Vec<u8>> = vec![];
                 let mut ignore_till_sync = false;
                 let mut prepared: HashMap<Vec<u8>, Vec<u8>> = HashMap::new();
@@ -281,7 +281,13 @@ pub(crate) mod verif_probe {
                                             let canon = param_defaults().keys().find(|k| k.to_ascii_lowercase() == c[1].to_ascii_lowercase()).cloned();
                                             if let Some(key) = canon {
                                                 tracked = true;
-                                                let val = match c.get(2) { Some(q) => q.as_str().replace("''", "'"), None => c[3].to_string() };
+                                                let val = match (c.get(2), c.get(3)) {
+                                                    (Some(q), _) => q.as_str().replace("''", "'"),
+                                                    (None, Some(w)) => w.as_str().to_string(),
+                                                    // an E'' literal: '' -> ', backslash + c -> c
+                                                    _ => { let raw = c[4].replace("''", "'"); let mut o = String::new(); let mut it = raw.chars();
+                                                           while let Some(ch) = it.next() { if ch == '\\' { if let Some(n) = it.next() { o.push(n); } } else { o.push(ch); } } o }
+                                                };
                                                 t.params.insert(key.clone(), val.clone());
                                                 let mut b = key.as_bytes().to_vec(); b.push(0); b.extend_from_slice(val.as_bytes()); b.push(0);
                                                 deliver.push(pmsg(b'S', &b));
